@@ -6,6 +6,7 @@ import (
 	"go/constant"
 	"go/token"
 	"go/types"
+	"sort"
 	"strings"
 
 	"golang.org/x/tools/go/ssa"
@@ -490,4 +491,95 @@ func calledOnlyFrom(fn *ssa.Function, fns []*ssa.Function, ok func(*ssa.Function
 		return n > 0
 	}
 	return rec(fn, 0)
+}
+
+// countedLoop: idx is the counter of an ascending loop with step 1 and constant bounds — either the phi of
+// `for i := a; i < N; i++` used in the body, or the phi+1 of a range loop (phi starts at -1, the header tests phi+1 < N).
+// Returns the first and last value idx takes in the body. The bound may be a constant or the length of an array.
+func countedLoop(idx ssa.Value) (first, last int64, ok bool) {
+	var phi *ssa.Phi
+	var inc *ssa.BinOp
+	rangeForm := false
+	switch x := idx.(type) {
+	case *ssa.Phi:
+		phi = x
+	case *ssa.BinOp:
+		if p, isPhi := x.X.(*ssa.Phi); isPhi && x.Op == token.ADD {
+			if k, isK := constInt(x.Y); isK && k == 1 {
+				phi, inc, rangeForm = p, x, true
+			}
+		}
+	}
+	if phi == nil || len(phi.Edges) != 2 {
+		return 0, 0, false
+	}
+	var init int64
+	haveInit := false
+	for _, e := range phi.Edges {
+		if k, isK := constInt(e); isK {
+			init, haveInit = k, true
+			continue
+		}
+		bo, isBo := e.(*ssa.BinOp)
+		if !isBo || bo.Op != token.ADD || bo.X != ssa.Value(phi) {
+			return 0, 0, false
+		}
+		if k, isK := constInt(bo.Y); !isK || k != 1 {
+			return 0, 0, false
+		}
+		if inc == nil {
+			inc = bo
+		} else if rangeForm && bo != inc {
+			return 0, 0, false
+		}
+	}
+	if !haveInit || inc == nil {
+		return 0, 0, false
+	}
+	// the header's test: tested < N with tested the counter as seen at the test
+	tested := ssa.Value(phi)
+	if rangeForm {
+		tested = inc
+	}
+	hdr := phi.Block()
+	ifi, isIf := hdr.Instrs[len(hdr.Instrs)-1].(*ssa.If)
+	if !isIf {
+		return 0, 0, false
+	}
+	cond, isBo := ifi.Cond.(*ssa.BinOp)
+	if !isBo || cond.Op != token.LSS || cond.X != tested {
+		return 0, 0, false
+	}
+	n, isK := constInt(cond.Y)
+	if !isK {
+		// len of an array value or pointer
+		if call, isCall := cond.Y.(*ssa.Call); isCall {
+			if b, isB := call.Call.Value.(*ssa.Builtin); isB && b.Name() == "len" {
+				t := call.Call.Args[0].Type().Underlying()
+				if pt, isP := t.(*types.Pointer); isP {
+					t = pt.Elem().Underlying()
+				}
+				if at, isA := t.(*types.Array); isA {
+					n, isK = at.Len(), true
+				}
+			}
+		}
+	}
+	if !isK {
+		return 0, 0, false
+	}
+	first = init
+	if rangeForm {
+		first = init + 1
+	}
+	return first, n - 1, first <= n-1
+}
+
+func sortedKeys[V any](m map[string]V) []string {
+	out := make([]string, 0, len(m))
+	for k := range m {
+		out = append(out, k)
+	}
+	sort.Strings(out)
+	return out
 }
